@@ -46,6 +46,29 @@ Theorem c19_session_ends_iff_last_answer_or_deadline : forall w t0 h, spec_cl cl
 Proof. exact ends_holds. Qed.
 Print Assumptions c19_session_ends_iff_last_answer_or_deadline.
 
+(* never leaks across subjects, the logout side (round 6): starting a global logout for a subject, and every
+   answer to a pending request of that subject's logout, leave the pending logout requests of every other subject
+   exactly as they were (addressee, identity providers still to answer, deadline) *)
+Theorem c19_other_subjects_requests_untouched : forall w t0 h, spec_cl cl_others w t0 (run w t0 h).
+Proof. exact others_holds. Qed.
+Print Assumptions c19_other_subjects_requests_untouched.
+
+(* (round 6) every logout request that an output hands to the application for delivery over the front channel is
+   on file in the client's state after that step - from ANY state, reachable or not ... *)
+Theorem c19_handed_out_request_is_on_file : forall w st o st' acc,
+  step w st o = (st', OSent acc) -> forall i b r, In (SentPending i b r) acc -> In r (keys (pend st')).
+Proof. exact step_sent. Qed.
+Print Assumptions c19_handed_out_request_is_on_file.
+
+(* ... hence the monitor, which since round 6 also learns from the OUTPUT which requests went out and to whom
+   (a request the SP has sent is pending whether or not the client object, or the state store the application
+   gave it, remembers it), learns on the model exactly what the client's state tells it *)
+Theorem c19_monitor_on_model : forall w st g o st' ou,
+  step w st o = (st', ou) ->
+  ghost_step w g (view_of st) o ou (view_of st') = ghost_step0 w g (view_of st) o ou (view_of st').
+Proof. exact ghost_step_model. Qed.
+Print Assumptions c19_monitor_on_model.
+
 (* C19, whole property, for every world, start time and history — no guard, no finding class is open *)
 Theorem c19_property : forall w t0 h, spec w t0 (run w t0 h).
 Proof. exact all_spec. Qed.
@@ -60,7 +83,7 @@ Print Assumptions c19_spec_reflect.
 Theorem c19_spec_clauses : forall w t0 tr,
   spec w t0 tr <->
   spec_cl cl_iso w t0 tr /\ spec_cl cl_exp w t0 tr /\ spec_cl cl_accept w t0 tr /\ spec_cl cl_after w t0 tr
-  /\ spec_cl cl_request w t0 tr /\ spec_cl cl_pending w t0 tr /\ spec_cl cl_ends w t0 tr.
+  /\ spec_cl cl_request w t0 tr /\ spec_cl cl_pending w t0 tr /\ spec_cl cl_ends w t0 tr /\ spec_cl cl_others w t0 tr.
 Proof. exact spec_split. Qed.
 Print Assumptions c19_spec_clauses.
 
